@@ -173,9 +173,14 @@ func isLenInvariant(l *Loop, v ssa.Value) bool {
 	if s := isLenOf(v); s != nil {
 		return !inLoop(l, s)
 	}
-	if b, ok := stripConv(v).(*ssa.BinOp); ok && (b.Op == token.SUB || b.Op == token.ADD) {
-		_, isC := constInt(b.Y)
-		return isC && (isLenInvariant(l, b.X) || !inLoop(l, stripConv(b.X)))
+	if b, ok := stripConv(v).(*ssa.BinOp); ok && (b.Op == token.SUB || b.Op == token.ADD || b.Op == token.MUL) {
+		inv := func(x ssa.Value) bool {
+			if _, isC := constInt(x); isC {
+				return true
+			}
+			return isLenInvariant(l, x) || !inLoop(l, stripConv(x))
+		}
+		return inv(b.X) && inv(b.Y)
 	}
 	return false
 }
